@@ -2,6 +2,7 @@ import CentrifugeVerif.Proofs.WSHeader
 import CentrifugeVerif.Proofs.WSMask
 import CentrifugeVerif.Spec.WSSpec
 import CentrifugeVerif.Proofs.WSEquiv
+import CentrifugeVerif.Proofs.WSTrunc
 /-! Writer model against the receiver specification: what the message writer puts on the wire
 decodes to the messages written. -/
 namespace CentrifugeVerif.WS
@@ -497,6 +498,73 @@ theorem writeMessagePlain_sync (hB : cfg.bufSize > 0) {evs : List Event} {c : WC
     obtain ⟨c', h1, h2, h3⟩ := writeStreamed_sync hside hrl htyp hcomp hB (evs := evs) (c := c) [data] hd hopen
       (by simpa using hlen) (by simp [deliver, Event.terminal])
     exact ⟨c', h1, h2, by simpa [deliver] using h3⟩
+
+end
+
+theorem decodesTo_append {peer : Cfg} {a : Nat → Bool} {w1 w2 : Bytes} {e1 e2 : List Event}
+    (h1 : DecodesTo peer a w1 e1 none) (h2 : DecodesTo peer a w2 e2 none) :
+    DecodesTo peer a (w1 ++ w2) (e1 ++ e2) none := by
+  intro X fuel fuel' hf hf'
+  rw [List.append_assoc] at hf ⊢
+  rw [h1 (w2 ++ X) fuel (fuel' + w2.length + 1) hf (by simp only [List.length_append]; omega)]
+  rw [h2 X (fuel' + w2.length + 1) fuel' (by simp only [List.length_append]; omega) hf']
+  simp
+
+section
+variable {peer : Cfg} {a : Nat → Bool} {cfg : WCfg} {typ : Nat}
+  (hside : peer.server = !cfg.server) (hrl : peer.readLimit = 0) (htyp : isDataOp typ = true)
+include hside hrl htyp
+
+theorem writePrepared_sync {evs : List Event} {c : WConn} (data : Bytes)
+    (hd : DecodesTo peer a c.wire evs none) (hopen : c.closeSent = false)
+    (hlen : data.length < two63) :
+    ∃ c', writePrepared cfg c typ data = (c', none) ∧ c'.closeSent = false ∧
+      DecodesTo peer a c'.wire (evs ++ [.msg typ data]) none := by
+  unfold writePrepared
+  obtain ⟨pc, h1, h2, h3⟩ := writeMessagePlain_sync (peer := peer) (a := a)
+    (cfg := { cfg with bufSize := 4096, compress := false }) (typ := typ) (comp := false)
+    hside hrl htyp (fun h => by cases h) (by show 4096 > 0; omega) (evs := []) (c := { nkeys := c.nkeys }) data rfl
+    (decodesTo_nil peer a) rfl hlen
+  simp only [h1]
+  have hnc : (typ == opClose) = false := by
+    simp only [isDataOp, Bool.or_eq_true, beq_iff_eq] at htyp
+    rcases htyp with h | h <;> subst h <;> rfl
+  simp only [connWrite, hopen, Bool.false_eq_true, if_false, hnc]
+  refine ⟨_, rfl, rfl, ?_⟩
+  simpa using decodesTo_append hd h3
+
+theorem writeCompressed_sync (hB : cfg.bufSize > 0) (hdefl : peer.deflate = true)
+    (hlim : peer.inflatedLimit = 0) {evs : List Event} {c : WConn}
+    (data dfl : Bytes) (deflChunks : List Bytes)
+    (hchunks : deflChunks.flatten = dfl ++ deflateTail)
+    (hcodec : peer.inflate (dfl ++ deflateTail) = some data)
+    (hd : DecodesTo peer a c.wire evs none) (hopen : c.closeSent = false)
+    (hlen : dfl.length < two63) :
+    ∃ c', writeCompressed cfg c typ deflChunks = (c', none) ∧ c'.closeSent = false ∧
+      DecodesTo peer a c'.wire (evs ++ [.msg typ data]) none := by
+  have hs := twWrites_spec deflChunks {} (by simp)
+  simp only [List.length_nil, List.nil_append, Nat.zero_add] at hs
+  rw [hchunks] at hs
+  have hl : (twWrites {} deflChunks).1.held.length = deflateTail.length := by
+    rw [hs.2]; simp only [List.length_append, deflateTail, List.length_cons, List.length_nil]; omega
+  obtain ⟨hout, hheld⟩ := List.append_inj' hs.1 hl
+  have hdel : deliver peer typ true (twWrites {} deflChunks).2.flatten = .msg typ data := by
+    simp [deliver, hout, hcodec, hlim]
+  obtain ⟨c', h1, h2, h3⟩ := writeStreamed_sync (peer := peer) (a := a) (cfg := cfg) (typ := typ)
+    (comp := true) hside hrl htyp (fun _ => hdefl) hB (evs := evs) (c := c) (twWrites {} deflChunks).2 hd hopen
+    (by rw [hout]; exact hlen) (by rw [hdel]; rfl)
+  refine ⟨c', ?_, h2, by rw [hdel] at h3; exact h3⟩
+  rw [← h1]
+  unfold writeCompressed writeStreamed
+  cases hb : beginMessage c typ with
+  | some e => rfl
+  | none =>
+    simp only []
+    generalize hm : mwWrites cfg c { frameType := typ, compress := true } (twWrites {} deflChunks).2 = r
+    obtain ⟨c1, w1, e1⟩ := r
+    cases e1 with
+    | some e => rfl
+    | none => simp [hheld]
 
 end
 
